@@ -143,7 +143,7 @@ def wellformed_filter(f):
     return True
 
 
-def matches(ev, f, boundary="inclusive"):
+def matches(ev, f, boundary="inclusive", delegation=True):
     """NIP-01 filter matching on a filter exactly as the client sent it.
     Unknown keys are ignored; a field of the wrong shape matches nothing (soundness side:
     a rejected or garbled condition must never *widen* the answer).
@@ -159,7 +159,7 @@ def matches(ev, f, boundary="inclusive"):
         elif k == "authors":
             if not isinstance(v, list):
                 return False
-            cand = [ev["pubkey"]] + delegators(ev)
+            cand = [ev["pubkey"]] + (delegators(ev) if delegation else [])
             if not any(isinstance(x, str) and x.lower() in cand for x in v):
                 return False
         elif k == "kinds":
